@@ -98,6 +98,16 @@ def prove_fast(ob):
     if len(goal_text) > 600:
         goal_text = goal_text[:600] + '...'
     r = s.check()
+    if r == z3.unknown and z3.is_false(z3.simplify(ob.goal)):
+        # "this path must not exist": the path condition's quantified conjuncts are definitional axioms and assumed
+        # invariants; the path was explored because its quantifier-free part is satisfiable -> decide on that part
+        from .interp import Interp
+        s2 = z3.Solver()
+        s2.set('timeout', FAST_MS)
+        s2.add(*[c for c in ob.pc if not Interp.has_quant(c)])
+        if s2.check() == z3.sat:
+            return Verdict(ob.name, ob.tag, 'refuted', 'z3', time.time() - t0, _model_to_dict(s2.model()),
+                           'path condition satisfiable (quantified axioms set aside)', ob.meta, goal_text), None
     if r == z3.unsat:
         return Verdict(ob.name, ob.tag, 'proved', 'z3', time.time() - t0, None, None, ob.meta, goal_text), None
     if r == z3.sat:
